@@ -62,6 +62,9 @@ BEHAVIOURAL = {p for p, s in PROPS.items() if s.get('roots') == 'anchors'}
 # stored entry exactly once" is false for a map with a hole below len or with a key stored twice.  So the
 # observers' checks also interpret the mutating roots and count a refuted invariant rule there as their own.
 OBSERVERS = {'C08', 'C09', 'C10', 'C14', 'C15', 'C19', 'C20'}
+# (deserialisation is one more way to build a container: the observers also interpret the mutating roots of the
+# serde build -- only those: their own anchors are judged on the builds listed in PROPS)
+DEP_ONLY_CFGS = {p: ['D'] for p in ('C08', 'C09', 'C10', 'C14', 'C15', 'C19')}
 MUTATOR_PROPS = {'C01', 'C07', 'C11', 'C12', 'C16', 'C18'}
 DEP_RULES = ('INV', 'ESC-own', 'ESC-user', 'APPEND-AFTER-MISS')
 
@@ -210,6 +213,20 @@ def e2_collect(pid, facts, merged):
     stats = {}
     for cfg, m in merged.items():
         f = facts[cfg]
+        if cfg in DEP_ONLY_CFGS.get(pid, ()) and cfg not in PROPS[pid]['quick'] + PROPS[pid]['thorough']:
+            # dependency-only configuration: only the mutating roots were interpreted here, and only a refuted
+            # invariant rule at one of them counts (assume / guarantee, see OBSERVERS)
+            for v in m['violations']:
+                v = dict(v)
+                v['config'] = cfg
+                if v['rule'] in DEP_RULES and pid in props_of(v):
+                    vs.append(v)
+            for rule in DEP_RULES:
+                ob += m['n_oblig'].get(rule, 0)
+                dis += m['n_ok'].get(rule, 0)
+            stats[cfg] = {'roots': len(m['roots']), 'config': cfg, 'role': 'mutating roots of the serde build only '
+                          '(what they guarantee is what the schemas of this property assume)'}
+            continue
         allv = list(m['violations'])
         n_cov, cov = coverage_rule(f, m)
         allv += cov
@@ -333,16 +350,22 @@ def run_check(pid, tier, seed, only_key=None):
         return 2
     spec = PROPS[pid]
     cfgs = spec[tier]
+    dep_only = [c for c in DEP_ONLY_CFGS.get(pid, ()) if c not in cfgs]
     if spec['e2']:
         select = None
         if spec.get('roots') == 'anchors':
             from . import specs
 
-            def select(body, _pid=pid):
+            def select(body, cfg, _pid=pid, _dep=tuple(dep_only)):
                 rp = specs.props_of_root(body)
+                if cfg in _dep:
+                    return bool(rp & MUTATOR_PROPS)
                 # (observer properties rest on the invariant the mutating roots guarantee: interpreted as well)
                 return _pid in rp or (_pid in OBSERVERS and bool(rp & MUTATOR_PROPS))
-        facts, merged = cli.gather(cfgs, select=select)
+        else:
+            def select(body, cfg):
+                return True
+        facts, merged = cli.gather(cfgs + dep_only, select=select)
     else:
         # graph-only properties: no interpreter run needed
         import tempfile
@@ -453,7 +476,8 @@ def run_check(pid, tier, seed, only_key=None):
         'checker_cmd': './check %s --tier %s' % (pid, tier),
         'trusted_base': TRUSTED,
         'samples': samples or [{'note': 'no sample recorded'}],
-        'configurations': {c: cli.CONFIG_DOC[c] for c in cfgs},
+        'configurations': dict({c: cli.CONFIG_DOC[c] for c in cfgs},
+                               **{c: cli.CONFIG_DOC[c] + ' -- mutating roots only' for c in dep_only}),
         'per_configuration': stats,
         'exhaustive': True,
         'rule': 'every obligation generated by the abstract interpretation of every analysis root in every '
@@ -492,6 +516,7 @@ def fired_all(tier='quick'):
         if pid == 'C06':
             vs, ob, extra = c06_collect({c: f for c, f in facts_all.items() if c in want}, {})
         else:
+            want = want + [c for c in DEP_ONLY_CFGS.get(pid, ()) if c not in want]
             vs, ob, dis, samples, stats = e2_collect(pid, {c: facts_all[c] for c in want},
                                                      {c: merged_all[c] for c in want})
         mine = sorted(w for w, ps in witness.SERVES.items() if pid in ps)
